@@ -104,3 +104,23 @@ prop("C04",
                   "PaVeBaPartialGP with hyperellipsoid confidence type and m >= 3: the Laurent-Massart term-wise bound does not close at t = 1 (left undecided, not reported as a violation)",
                   "VOGP_AD's RKHS schedule and Auer's empirical-beta branch (not covered by the property's Gaussian argument)",
                   "that the GP posterior is Gaussian with the predicted mean/variance (A-GP)"])
+
+prop("C13",
+     level_text="get_pareto_set and get_pareto_set_naive are executed symbolically (mask-and-compact loop with the executor forking on every symbolic mask entry) with `dominates` called by contract as an ARBITRARY reflexive transitive relation on the input vectors: valid/distinct/increasing indices, nothing returned is strictly dominated, every input is weakly dominated by a returned vector, equal values once (fast) / all kept (naive).",
+     mode="number of vectors N enumerated (quick 1..4, thorough 5); order abstract (all cones, all m, all K); vector values symbolic",
+     trusted_base=["z3 5.1.0", "numpy.allclose definition", "numpy boolean-mask selection keeps the selected rows in order"],
+     not_decided=["N beyond the enumerated sizes (the loop is not cut by an invariant; termination not proved)"])
+
+prop("C17",
+     level_text="get_alpha's cvxpy program is proved pointwise equal to 'maximise the facet functional over unit-norm cone vectors' and its result to the optimal value; get_alpha_vec's shape and routing; compute_u_star (VOGP, VOGP_AD): the program handed to SLSQP is 'minimise |z| subject to every facet functional >= 1' (objective and ALL K constraints), u* = z*/|z*|, d1 = |z*|, u* in the cone; ConeTheta2D.beta's formula.",
+     mode="unrolled K up to 4 facets, dimension 2-3; theta symbolic",
+     assumptions=[A_SOLVE],
+     trusted_base=["z3 5.1.0", "cvxpy / scipy SLSQP return a global optimum of the convex program they are given"],
+     not_decided=["numerical optimality of the SOCP / SLSQP solvers", "the identity alpha(get_2d_w(theta)) = sin(theta) (acute) / 1, i.e. beta = 1/alpha, is not proved symbolically (bounded numeric stand-in)"])
+
+prop("C18",
+     level_text="generate_child_designs / refine_design are executed symbolically for d = 1, 2, 3: the 2^d children are all sign patterns of the halved cell, each child's point is the centre of its own cell, depth + 1 (<= max depth), parent's region bounds, fresh consecutive indices, earlier nodes untouched; tiling (union = parent, disjoint interiors, half side) is a lemma; root cell; no refinement at max depth; VOGP_AD's 'only finest leaves are declared' is an invariant lemma over the proved step contracts.",
+     mode="unrolled d in {1,2,3}; cell bounds / depths / regions symbolic",
+     trusted_base=["z3 5.1.0", "itertools.product contract", "induction on the refinement history (schema)"],
+     not_decided=["VOGP_AD.evaluate_refine's own body (the parent-for-children swap in S / P) is used through an assumed contract",
+                  "refine_design called directly on a node at max depth (outside the precondition the library's only call site establishes)"])
